@@ -4,6 +4,8 @@ fs_is_file(s): a regular file named s exists -- in the final state, or in the en
 fs_was_file(s): a regular file named s (s evaluated in the final state) existed at entry.
 fs_existed(s):  something named s (s evaluated in the final state) existed at entry.
 fs_exists(s):  something named s exists (what os.path.exists(s) returns).
+fs_content(s): content (a string) of the file named s -- final state, or entry state inside old(...).
+fs_pickled(o):  the uninterpreted image pickle.dump writes for the object o;  fs_csv(frame): what frame.to_csv writes.
 """
 from pyvc.specs_runtime import spec
 from pyvc.vals import as_atom, v_bool
@@ -30,3 +32,22 @@ def _fs_existed(ex, st, s):
     import z3
     a = as_atom(s)
     return v_bool(z3.Or(c14_fs.fs_was_file(a), c14_fs.VV.uf('c14_fs_exists', c14_fs.I, c14_fs.B)(a)))
+
+
+@spec('fs_content')
+def _fs_content(ex, st, s):
+    import z3
+    from pyvc import vals as VV
+    return VV.V(VV.Val.s(z3.Select(c14_fs.ct_now(st), as_atom(s))), VV.STR)
+
+
+@spec('fs_pickled')
+def _fs_pickled(ex, st, o):
+    from pyvc import vals as VV
+    return VV.V(VV.Val.s(c14_fs.pickled_atom(ex, st, o)), VV.STR)
+
+
+@spec('fs_csv')
+def _fs_csv(ex, st, o):
+    from pyvc import vals as VV
+    return VV.V(VV.Val.s(c14_fs.csv_atom(ex, st, o)), VV.STR)
